@@ -88,7 +88,11 @@ impl Graph {
             .sorted_by(|a, b| {
                 let primary = b.node_rank.cmp(&a.node_rank);
                 if primary == Ordering::Equal {
-                    a.key.cmp(&b.key)
+                    // (down to the text, so that the order never falls back on node ids,
+                    // which depend on the order the notes were loaded or inserted in)
+                    a.key
+                        .cmp(&b.key)
+                        .then_with(|| a.search_text.cmp(&b.search_text))
                 } else {
                     primary
                 }
